@@ -37,7 +37,10 @@ ALLOWED_IO_UNWRAP = {
     "serialize::test": "documented test helper: 'Will panic if any of the tests fails'",
 }
 PARTIAL_IO = {"std::io::Read::read", "std::io::Write::write", "std::io::Read::read_vectored", "std::io::Write::write_vectored",
-              "std::io::Read::read_buf", "std::io::BufRead::fill_buf"}
+              "std::io::Read::read_buf", "std::io::BufRead::fill_buf",
+              # end-of-input is success for these: fewer bytes than the header announced are accepted
+              "std::io::Read::read_to_end", "std::io::Read::read_to_string", "std::io::Read::bytes", "std::io::BufRead::read_until",
+              "std::io::BufRead::read_line"}
 FLOOR_RESULT_CALLS = 200   # counted 277 on the pinned tree
 FLOOR_TRY_SITES = 60       # counted 103 on the pinned tree; `?; Ok(())` tails written as tail expressions lower it without removing a check
 
